@@ -77,6 +77,9 @@ def gen_actrl(rng, p=0.35):
             w = rng.choice([1, 1, 2, 5])
             rows.append([rng.randrange(n_acc), w, -w] if rng.random() < 0.5 else [rng.randrange(n_acc), -w, w])
         else: rows.append([rng.randrange(n_acc), rng.choice([0, 1, 1, 2, 5, -1, -3]), rng.choice([0, 1, 1, 3, 7, -2])])
+    if rng.random() < 0.3:      # accumulator indices need not be contiguous
+        for r_ in rows:
+            if r_[0] >= 0: r_[0] = r_[0] * 2 + 1
     return {'rows': rows, 'plus3': rng.random() < 0.5}   # False: the documented shape (len(lines), 3)
 
 
